@@ -76,7 +76,8 @@ def check_state(acc, kind, arch, params, st=None, history=None):
     st = build_state(kind, arch, params) if st is None else st
     n = arch[0]
     D = 2 ** n
-    space = tbits(n)
+    from ..common import space_of
+    space = space_of(st, n)
 
     def bad(sig, what, obs=None, exp=None, tol=TOL):
         acc.viol(sig, dict(base, **what), observed=obs, expected=exp, tol=tol)
@@ -221,10 +222,14 @@ def run_stateful(acc, kind, arch):
     from ..common import update_params, UPDATE_STYLES
     from .c05 import stateful_sequence
     seq = stateful_sequence(kind, arch)
+    # an earlier, unrelated call that overrides default letters must not leak into models built afterwards
+    lib().unitaries.create_dict(X=c2t(R.CUSTOM_U["S"]), Y=c2t(R.CUSTOM_U["G"]))
+    d_ = lib().unitaries.create_dict()
+    d_["X"] = c2t(R.CUSTOM_U["G"])
     st = build_state(kind, arch, seq[0])
     check_state(acc, kind, arch, seq[0], st=st, history=[])
     hist = []
-    for i, style in enumerate(UPDATE_STYLES[:2] + UPDATE_STYLES[2:3]):
+    for i, style in enumerate(["reinit", "copy_", "load_state_dict", "reinit"]):
         hist = hist + [dict(update=style, to_pattern=i + 1)]
         update_params(st, seq[i + 1], style)
         check_state(acc, kind, arch, seq[i + 1], st=st, history=hist)
